@@ -890,7 +890,9 @@ class ShellService(object):
         for i, p in enumerate(final):
             dev.q_wrte(self.s, p, now, lat=(think[i % len(think)] if think else None))
         if not c.get('no_close'):
-            dev.q_close(self.s, now)
+            dev.q_close(self.s, now, lat=c.get('exit_delay'))      # the command goes on for a while after its last output
+            if c.get('exit_delay'):
+                dev.probe('cmd_exits_late')
 
     def on_data(self, data, now):
         self.dev.ack_host_wrte(self.s, now)
@@ -959,8 +961,13 @@ class SyncService(object):
                     break
         if len(pieces) > 1:
             dev.probe('sync_reply_multi_wrte')
-        for p in pieces:
+        ew = dev.spec.get('empty_wrte_in_sync')
+        for j, p in enumerate(pieces):
             dev.q_wrte(self.s, p, now, lat=lat, kind=kind)
+            if ew and j % ew == ew - 1 and j + 1 < len(pieces):
+                # a WRITE without payload between two WRITEs of a sync reply (legal, acknowledged like any other)
+                dev.q_wrte(self.s, b'', now, lat=lat, kind=kind)
+                dev.probe('sync_empty_wrte_between_pieces')
 
     # requests ----------------------------------------------------------------------------
     def on_data(self, data, now):
@@ -1143,6 +1150,12 @@ class SyncService(object):
                 break
             sz = max(1, min(sizes[k % len(sizes)], W.SYNC_DATA_MAX))
             k += 1
+            ee = f.get('empty_every')
+            if ee and recs % ee == ee - 1:
+                # a DATA record without data (a read on the device that returned nothing yet) in the middle of the file
+                bounds.append(len(out))
+                out += W.sync_data(b'')
+                dev.probe('recv_empty_data_record')
             chunk = data[i:i + sz]
             i += len(chunk)
             bounds.append(len(out))
